@@ -60,6 +60,10 @@ def build_signal(case):
     long_horizon = kind == "balanced_market" and case["i"] % 8 == 5
     if long_horizon:
         interval = rng.choice([30, 60])
+    # balanced_market, "tight tail": the cheapest level is exactly the last `need` steps of the standing time, the demand
+    # needs half a step less than that at full power, and the announced departure lies INSIDE the last step (off the
+    # grid): the plan must count the step in which the vehicle leaves (seeded change C11-h2: remaining steps rounded down)
+    tight_tail = kind == "balanced_market" and case["i"] % 8 == 3
     dt = datetime.timedelta(minutes=interval)
     start = T0 + datetime.timedelta(days=rng.choice([0, 1, 3]), hours=rng.choice([5, 6, 7]))
     n_steps = int(rng.choice([10, 14, 18]) * 60 / interval)
@@ -105,12 +109,12 @@ def build_signal(case):
                     steps_price[t] = 0.1
     comp = {"vehicle_types": {}, "vehicles": {}, "grid_connectors": {}, "charging_stations": {}, "batteries": {}}
     ev = {"fixed_load": {}, "local_generation": {}, "grid_operator_signals": [], "vehicle_events": []}
-    meta = {"vehicles": {}, "interval": interval, "n_steps": n_steps}
+    meta = {"vehicles": {}, "interval": interval, "n_steps": n_steps, "tight_tail": tight_tail}
     total = 0.0
-    n_veh = rng.randint(1, 3)
+    n_veh = 1 if tight_tail else rng.randint(1, 3)
     # single-vehicle scenarios may get a fixed load that makes the connector headroom bind in some steps
     # (share of the station power that is left: 1 = not binding)
-    binding = n_veh == 1 and rng.random() < 0.6
+    binding = n_veh == 1 and rng.random() < 0.6 and not tight_tail
     share = [rng.choice([1, 1, 1, 0.2, 0.4, 0.7]) if binding else 1 for _ in range(n_steps + 8)]
     for k in range(n_veh):
         cname, pts = rng.choice(scen.CURVES[:4])
@@ -131,7 +135,16 @@ def build_signal(case):
         def capacity(enc_, a_, d_):
             # encouraged charging capacity in full-power steps (headroom share where the connector binds)
             return sum(share[t] for t in range(a_, d_) if enc_[t])
-        if steps_price:
+        if tight_tail:
+            if need < 2 or a + need + 3 > n_steps - 1:
+                continue
+            desired = (traj[need - 1] + traj[need]) / 2       # reachable in need - 1/2 full-power steps
+            d = min(n_steps - 1, a + need + rng.randint(3, 8))
+            steps_price = [rng.choice([0.2, 0.3]) for _ in steps_price]
+            for t in range(d - need, d):
+                steps_price[t] = 0.1
+            enc = [p == 0.1 for p in steps_price]
+        elif steps_price:
             d = min(n_steps - 1, a + max(want_enc + rng.randint(2, 8), 4))
             if long_horizon:
                 d = n_steps - 1
@@ -151,6 +164,8 @@ def build_signal(case):
         comp["charging_stations"][csid] = {"max_power": cs_power, "min_power": 0, "parent": "GC1"}
         total += cs_power
         dep_time = start + d * dt - datetime.timedelta(minutes=rng.choice([0, 0, 1]))
+        if tight_tail:
+            dep_time = start + d * dt - datetime.timedelta(minutes=rng.choice([1, interval // 2, interval - 1]))
         veh = {"vehicle_type": tn, "soc": soc0, "desired_soc": desired}
         if a == 0:
             veh["connected_charging_station"] = csid
@@ -285,6 +300,8 @@ def eval_signal(full):
     strat, kind = full["strategy"], full["kind"]
     mv = full["meta"]["vehicles"]
     viol, stats = [], [kind]
+    if full["meta"].get("tight_tail") and mv:
+        stats.append("tight_tail_offgrid_departure")
     if not mv:
         return {"lines": [], "impl": [], "violations": [], "nontrivial": False, "stats": ["empty"], "replay_case": full}
     # the strategy's step model (where one exists) is tied to the real step on these runs
